@@ -17,7 +17,7 @@ SPEC = dict(
           "often as the group list does when write_out_order is duplicate-free and contains its residue type (both decided). "
           "The parser and census models are compared with the real code; an independent residue-level specification of the sites "
           "is evaluated against the real parser, every conformation's groups and the parsed summary of the written .pka. "
-          "Group set-up is modelled too (Model/Setup.lean): setup_atoms of every group class (centre atoms, interaction atoms for acids / for bases), set_center, the ring search of the histidine set-up, the covalent coupling search find_covalently_coupled_groups, and the ligand classifier is_ligand_group_by_groups; on every distinct conformation this check runs, centres (bit patterns), both interaction-atom lists, the coupling lists and the class of every hetero atom are compared with the real objects. The scoring model is compared as well. Theorems: ligand_classes_known (every class the ligand classifier can name is a class of propka.group with a residue type of its own and is known to the set-up model - decided on the regenerated class list), ligandClass_mem (whatever the atoms, bonds and SYBYL types, the classifier names one of those classes or none), mem_couple / couple_sym / covalentCoupling_sym (couple_covalently adds exactly the two mutual entries; the coupling lists are symmetric).",
+          "Group set-up is modelled too (Model/Setup.lean): setup_atoms of every group class (centre atoms, interaction atoms for acids / for bases), set_center, the ring search of the histidine set-up, the covalent coupling search find_covalently_coupled_groups, and the ligand classifier is_ligand_group_by_groups; on every distinct conformation this check runs, centres (bit patterns), both interaction-atom lists, the coupling lists and the class of every hetero atom are compared with the real objects. The scoring model is compared as well. Theorems: ligand_classes_known (every class the ligand classifier can name is a class of propka.group with a residue type of its own and is known to the set-up model - decided on the regenerated class list), ligandClass_mem (whatever the atoms, bonds and SYBYL types, the classifier names one of those classes or none), mem_couple / couple_sym / covalentCoupling_sym (couple_covalently adds exactly the two mutual entries; the coupling lists are symmetric). The set-up pipeline is modelled as a whole (Model/Pipeline.lean: bonding by cells as a state machine on the bond lists, SYBYL typing of hetero atoms, pi electrons, the Protonate state machine, extract_groups with the set-up of every group class, sort_atoms, covalent coupling) and composed with the parser, top-up and scoring models into Program.run - the program as one Lean function from the PDB text; on the texts this check runs the real program and Program.run agree on every atom (built hydrogens bit for bit), group, determinant, on the average conformation and on the summary section. Theorems on it (Props/Pipeline.lean): extract_groups_once (the atoms that define the groups of a conformation are a duplicate-free sublist of its non-hydrogen atoms, in order - for every input, table and option), extract_groups_heavy, bridged_not_titratable.",
     note="Ligand typing (SYBYL perception) is not modelled: for hetero groups the check verifies, on the real objects, that whatever "
          "group the classifier returned carries the model pKa/charge configured for its type. The census model is trace-driven for "
          "the bond-derived inputs (bonded-oxygen count, disulfide flag).",
